@@ -372,6 +372,10 @@ class KernelTarget:
         ob('corr/kernel-thermal', kc['thermal'] - J * (sp.cos(w * tau) * coth - sp.I * sp.sin(w * tau)))
         ob('corr/guard-limit', kc['guard'] - kc0)                    # overflow branch = the x := exp(-w/T) -> 0 instance
         ob('eta/guard-limit', ke['guard'] - ke0)
+        # WHEN the zero-temperature form may stand in: exactly where exp(-w/T) has dropped below machine epsilon AT THE
+        # FREQUENCY being integrated (there the two branches agree to rounding); the condition must be this one, per frequency
+        ob('corr/guard-condition', kc['guard_margin'] - (sp.exp(-w / T) - cas.EPS))
+        ob('eta/guard-condition', ke['guard_margin'] - (sp.exp(-w / T) - cas.EPS))
         # eta kernel is the double antiderivative of the correlation kernel (eta_function returns MINUS the integral)
         for nm, kce, kee in (('T0', kc0, ke0), ('thermal', kc['thermal'], ke['thermal']), ('guard', kc['guard'], ke['guard'])):
             ob('eta/is-double-antiderivative[%s]' % nm, sp.diff(-kee, tau, 2) - kce)
